@@ -177,6 +177,9 @@ def run_case(case, seed):
             if not ok2 or (G.from_quat(res2[0]).tobytes(), np.asarray(res2[1], float).tobytes(), G.from_quat(res2[2]).tobytes()) != first:
                 fails.append(fail("same_seed_same_output", "two runs with seed 0 differ", **t2))
         ok_runs += 1
+        if sd == 1 and first is not None and r > R and (R + P) < min(m, n) and (U.tobytes(), s.tobytes(), V.tobytes()) == first:
+            # the sketch is drawn from numpy's global generator: with rank(A) > R and a sketch narrower than the matrix two seeds cannot coincide
+            fails.append(fail("seed_not_used", "global seeds 0 and 1 give bit-identical factors although the result depends on the random sketch", **t2))
     return {
         "key": case["key"],
         "fails": fails[:24],
